@@ -23,12 +23,19 @@ pub fn bins(cfg: &mut Cfg, rep: &mut Report) {
             let mut wide = Array1::from_elem(2 * n, -9i32);
             for (k, x) in raw2.iter().enumerate() { wide[2 * k] = *x; }
             let e_step = Edges::from(wide.slice(s![..;2]).to_owned());
-            for (nm, e) in [("vec", &e_vec), ("array", &e_arr), ("stepped", &e_step)] {
+            // owned arrays that are slices of a larger allocation (stride 2 / trimmed): still owned, not compact
+            let mut wide2: Vec<i32> = vec![-9; 2 * n];
+            for (k, x) in raw2.iter().enumerate() { wide2[2 * k] = *x; }
+            let e_owned_step = Edges::from(Array1::from(wide2).slice_move(s![..;2]));
+            let mut pad: Vec<i32> = vec![-7]; pad.extend(raw2.iter().copied()); pad.push(-5);
+            let e_owned_trim = Edges::from(Array1::from(pad).slice_move(s![1..n + 1]));
+            let e_owned_rev = Edges::from(Array1::from(raw2.iter().rev().copied().collect::<Vec<_>>()).slice_move(s![..;-1]));
+            for (nm, e) in [("vec", &e_vec), ("array", &e_arr), ("stepped", &e_step), ("owned_stepped", &e_owned_step), ("owned_trimmed", &e_owned_trim), ("owned_reversed", &e_owned_rev)] {
                 let case = format!("{};ctor={}", case0, nm);
                 if !rep.want(cfg, &case) { continue; }
                 let got: Vec<i32> = e.iter().copied().collect();
                 if got != want || e.len() != want.len() || e.is_empty() != want.is_empty() || e.as_array_view().to_vec() != want {
-                    rep.fail(cfg, &case, "Edges do not hold exactly the distinct input values in increasing order", json!({"got": got, "want": want}));
+                    rep.fail_p(cfg, &case, "C13,C20", "Edges do not hold exactly the distinct input values in increasing order", json!({"got": got, "want": want}));
                 }
                 for k in 0..want.len() { if e[k] != want[k] { rep.fail(cfg, &case, "Edges[i] disagrees", json!({"i": k})); } }
                 let b = Bins::new(e.clone());
